@@ -22,11 +22,15 @@ pub struct RlteCoordinator;
 
 impl RlteCoordinator {
     /// Determines if RLTE planning should be performed for this command.
+    ///
+    /// Aggregate queries are excluded: their ORDER BY / LIMIT apply to the merged groups,
+    /// so every zone has to be scanned to build the groups first.
     pub fn should_plan(cmd: &Command) -> bool {
         matches!(
             cmd,
             Command::Query {
                 order_by: Some(_),
+                aggs: None,
                 ..
             }
         )
